@@ -34,6 +34,7 @@ type c35Scenario struct {
 	CancelMs   int64        `json:"cancel_ms"`
 	Async      bool         `json:"async"`
 	DeliverErr bool         `json:"deliver_err"`
+	ViaSend    bool         `json:"via_send"` // go through PID.SendSync / PID.SendAsync (actor/pid.go)
 }
 
 type c35Seen struct {
@@ -178,7 +179,14 @@ func c35Run(sc c35Scenario) c35Result {
 	}
 	var resp any
 	var err error
-	if sc.Async {
+	if sc.ViaSend {
+		pid.setState(runningState, true)
+		if sc.Async {
+			err = pid.SendAsync(ctx, "target", "ping")
+		} else {
+			resp, err = pid.SendSync(ctx, "target", "ping", time.Duration(sc.MaxWaitMs)*time.Millisecond)
+		}
+	} else if sc.Async {
 		resp, err = pid.deliverBypassingHandoff(ctx, "target", deliver)
 	} else {
 		resp, err = pid.deliverAcrossHandoff(ctx, "target", time.Duration(sc.MaxWaitMs)*time.Millisecond, deliver)
